@@ -16,12 +16,15 @@ open BM
     concatenation of the per-token encodings with the values consumed left to right. -/
 theorem pack_alg_eq_spec (kw : Kw) (ts : List Tok) (vs : List Val) :
     packAlg kw ts vs = packT kw ts vs := by
-  sorry
+  unfold packAlg
+  refine (Eq.trans ?_ (packLoop_spec kw ts vs [])).trans ?_
+  · cases packLoop kw ts vs [] <;> rfl
+  · cases packT kw ts vs <;> simp [Except.map]
 
 /-- `packT` is the concatenation of the per-token encodings `packParts`. -/
 theorem packT_eq_parts (kw : Kw) (ts : List Tok) (vs : List Val) :
     packT kw ts vs = (packParts kw ts vs).map List.flatten := by
-  sorry
+  exact packT_eq_parts' kw ts vs
 
 /-! ### length = Σ token lengths; wrong size → error -/
 
@@ -33,38 +36,38 @@ theorem pack_length (kw : Kw) (ts : List Tok) (vs : List Val) (b : Bits) (h : pa
       b.length = (ps.map List.length).sum ∧
       ∀ (i : Nat) (t : Tok) (p : Bits) (n : Int), ts[i]? = some t → ps[i]? = some p → declLen kw t = some n →
         (p.length : Int) = n := by
-  sorry
+  exact pack_length' kw ts vs b h
 
 /-- With only length-declaring tokens the total is the sum of the declared lengths. -/
 theorem pack_length_fixed (kw : Kw) (ts : List Tok) (vs : List Val) (b : Bits) (h : packT kw ts vs = .ok b)
     (hfix : ∀ t ∈ ts, (declLen kw t).isSome) :
     (b.length : Int) = (ts.map fun t => (declLen kw t).getD 0).sum := by
-  sorry
+  exact pack_length_fixed' kw ts vs b h hfix
 
 /-- Clause "wrongly sized values raise": a token that declares a length never yields another number of bits —
     whatever the value, the result is that many bits or an error. -/
 theorem tokBits_declared_length (kw : Kw) (t : Tok) (v : Option Val) (b : Bits) (n : Int)
     (h : tokBits kw t v = .ok b) (hn : declLen kw t = some n) : (b.length : Int) = n := by
-  sorry
+  exact tokBits_declared_length' kw t v b n h hn
 
 /-- … and the error is a `ValueError` (`CreationError`): integers out of range, -/
 theorem uint_out_of_range (kw : Kw) (n : Nat) (i : Int) (h : i < 0 ∨ (2 : Int) ^ n ≤ i) :
     tokBits kw ⟨"uint".toList, some (.int n), none⟩ (some (.int i)) = .error .value := by
-  sorry
+  exact uint_out_of_range' kw n i h
 
 theorem int_out_of_range (kw : Kw) (n : Nat) (i : Int) (h : i < -((2 : Int) ^ (n - 1)) ∨ (2 : Int) ^ (n - 1) ≤ i) :
     tokBits kw ⟨"int".toList, some (.int n), none⟩ (some (.int i)) = .error .value := by
-  sorry
+  exact int_out_of_range' kw n i h
 
 /-- … bitstring values of another length, -/
 theorem bits_wrong_size (kw : Kw) (n : Nat) (x : Bits) (h : x.length ≠ n) :
     tokBits kw ⟨"bits".toList, some (.int n), none⟩ (some (.bits x)) = .error .value := by
-  sorry
+  exact bits_wrong_size' kw n x h
 
 /-- … byte strings of another length, -/
 theorem bytes_wrong_size (kw : Kw) (n : Nat) (x : Bits) (h : x.length ≠ 8 * n) :
     tokBits kw ⟨"bytes".toList, some (.int n), none⟩ (some (.bytes x)) = .error .value := by
-  sorry
+  exact bytes_wrong_size' kw n x h
 
 /-- … hex strings with another number of digits. -/
 theorem hex_wrong_size (kw : Kw) (n : Nat) (s : Str) (hs : s.all isLowerHex = true) (h : 4 * s.length ≠ n) :
@@ -76,17 +79,17 @@ theorem hex_wrong_size (kw : Kw) (n : Nat) (s : Str) (hs : s.all isLowerHex = tr
 /-- Success implies that exactly `arity` values were supplied. -/
 theorem pack_ok_arity (kw : Kw) (ts : List Tok) (vs : List Val) (b : Bits) (h : packT kw ts vs = .ok b) :
     vs.length = arity kw ts := by
-  sorry
+  exact pack_ok_arity' kw ts vs b h
 
 /-- Clause "too few values raise CreationError": any proper prefix of an accepted value list is rejected with ValueError. -/
 theorem pack_too_few (kw : Kw) (ts : List Tok) (vs : List Val) (b : Bits) (h : packT kw ts vs = .ok b)
     (k : Nat) (hk : k < vs.length) : packT kw ts (vs.take k) = .error .value := by
-  sorry
+  exact pack_too_few' kw ts vs b h k hk
 
 /-- Clause "too many values raise CreationError". -/
 theorem pack_too_many (kw : Kw) (ts : List Tok) (vs : List Val) (b : Bits) (h : packT kw ts vs = .ok b)
     (w : Val) (ws : List Val) : packT kw ts (vs ++ w :: ws) = .error .value := by
-  sorry
+  exact pack_too_many' kw ts vs b h w ws
 
 /-! ### compositionality -/
 
@@ -95,33 +98,33 @@ theorem pack_too_many (kw : Kw) (ts : List Tok) (vs : List Val) (b : Bits) (h : 
 theorem pack_append (kw : Kw) (f1 f2 : List Tok) (v1 v2 : List Val) (h : v1.length = arity kw f1) :
     packT kw (f1 ++ f2) (v1 ++ v2) =
       (packT kw f1 v1).bind fun b1 => (packT kw f2 v2).map fun b2 => b1 ++ b2 := by
-  sorry
+  exact pack_append' kw f1 f2 v1 v2 h
 
 theorem pack_append_ok (kw : Kw) (f1 f2 : List Tok) (v1 v2 : List Val) (b1 b2 : Bits)
     (h1 : packT kw f1 v1 = .ok b1) (h2 : packT kw f2 v2 = .ok b2) :
     packT kw (f1 ++ f2) (v1 ++ v2) = .ok (b1 ++ b2) := by
-  sorry
+  exact pack_append_ok' kw f1 f2 v1 v2 b1 b2 h1 h2
 
 /-- every way of splitting an accepted format into two formats splits the bits accordingly. -/
 theorem pack_split (kw : Kw) (f1 f2 : List Tok) (vs : List Val) (b : Bits)
     (h : packT kw (f1 ++ f2) vs = .ok b) :
     ∃ b1 b2, packT kw f1 (vs.take (arity kw f1)) = .ok b1 ∧ packT kw f2 (vs.drop (arity kw f1)) = .ok b2 ∧ b = b1 ++ b2 := by
-  sorry
+  exact pack_split' kw f1 f2 vs b h
 
 /-- "'n*(f)' equals f written n times": the flattening of a repetition is the n-fold concatenation … -/
 theorem rep_unfold (n : Nat) (f : Fmt) : (Fmt.rep n f).flatten = (List.replicate n f.flatten).flatten := by
-  sorry
+  rfl
 
 /-- … and it packs to n copies of the bits when the values are repeated as well. -/
 theorem pack_rep (kw : Kw) (ts : List Tok) (vs : List Val) (b : Bits) (h : packT kw ts vs = .ok b) (n : Nat) :
     packT kw (List.replicate n ts).flatten (List.replicate n vs).flatten = .ok (List.replicate n b).flatten := by
-  sorry
+  exact pack_rep' kw ts vs b h n
 
 /-- more generally each copy may get its own values -/
 theorem pack_rep_values (kw : Kw) (ts : List Tok) (vss : List (List Val)) (bs : List Bits)
     (h : List.Forall₂ (fun vs b => packT kw ts vs = .ok b) vss bs) :
     packT kw (List.replicate vss.length ts).flatten vss.flatten = .ok bs.flatten := by
-  sorry
+  exact pack_rep_values' kw ts vss bs h
 
 /-! ### embedded values -/
 
@@ -130,17 +133,17 @@ theorem pack_rep_values (kw : Kw) (ts : List Tok) (vss : List (List Val)) (bs : 
 theorem embedded_eq_separate (kw : Kw) (name : Str) (len : Option LenV) (s : Str) (ts : List Tok) (vs : List Val)
     (hpad : name ≠ "pad".toList) (hkey : kw.get? s = none) (hdict : ¬ (kw.has name = true ∧ len = none)) :
     packT kw (⟨name, len, some s⟩ :: ts) vs = packT kw (⟨name, len, none⟩ :: ts) (.str s :: vs) := by
-  sorry
+  exact value_eq_separate kw name len s (.str s) ts vs hpad (by simp [resolveVal, hkey]) hdict
 
 /-- a keyword value `name:len=key` is the keyword's value passed positionally -/
 theorem keyword_eq_separate (kw : Kw) (name : Str) (len : Option LenV) (s : Str) (x : Val) (ts : List Tok) (vs : List Val)
     (hpad : name ≠ "pad".toList) (hkey : kw.get? s = some x) (hdict : ¬ (kw.has name = true ∧ len = none)) :
     packT kw (⟨name, len, some s⟩ :: ts) vs = packT kw (⟨name, len, none⟩ :: ts) (x :: vs) := by
-  sorry
+  exact value_eq_separate kw name len s x ts vs hpad (by simp [resolveVal, hkey]) hdict
 
 /-- for the integer kinds the text of a number and the number build the same bits (`int('…')`) -/
 theorem int_text_eq_int (s : Str) (i : Int) (h : pyInt? s = some i) : valToInt (.str s) = valToInt (.int i) := by
-  sorry
+  exact int_text_eq_int' s i h
 
 /-! ### unpack ∘ pack = id -/
 
@@ -160,13 +163,13 @@ theorem unpack_pack (kw : Kw) (ts : List Tok) (vs : List Val) (b : Bits) (ds : L
 /-- the first pass computes what the statement calls "the bits after the length-less token" -/
 theorem pass1_no_stretchy (ds : List DT) (h : ∀ d ∈ ds, d.stretchy = false) :
     pass1 ds false 0 = .ok (false, 0) := by
-  sorry
+  exact pass1_nohas ds 0 h
 
 /-- two length-less tokens, or a self-delimiting token after one, are rejected (`bitstring.Error`) -/
 theorem pass1_two_stretchy (l1 l2 l3 : List DT) (d1 d2 : DT) (h1 : d1.stretchy = true) (h2 : d2.stretchy = true)
     (hl1 : ∀ d ∈ l1, d.stretchy = false) (hl2 : ∀ d ∈ l2, d.stretchy = false ∧ d.kind.variable = false) :
     pass1 (l1 ++ d1 :: l2 ++ d2 :: l3) false 0 = .error .bitstring := by
-  sorry
+  exact pass1_two_stretchy' l1 l2 l3 d1 d2 h1 h2 hl1 hl2
 
 /-! ### non-vacuity -/
 
